@@ -59,6 +59,15 @@ struct Hoist {
     /// whitespace-free text the hoisted suffix must have (the assumed spec was written for exactly this text)
     #[serde(default)]
     pin: String,
+    /// other texts the same chain may have, each with the spec assumed for that text
+    #[serde(default)]
+    alts: Vec<HoistAlt>,
+}
+
+#[derive(Deserialize, Clone)]
+struct HoistAlt {
+    pin: String,
+    spec: String,
 }
 
 #[derive(Deserialize, Default)]
@@ -775,13 +784,17 @@ fn contains_closure(e: &syn::Expr) -> bool {
 /// does a direct argument of some call in the receiver chain of `m` hold a closure?
 fn chain_has_closure_arg(m: &syn::ExprMethodCall) -> bool {
     let mut cur: &syn::Expr = &m.receiver;
-    if m.args.iter().any(|a| matches!(a, syn::Expr::Closure(_)) || contains_closure(a)) {
+    // a path to a `char` method passed as a function (`.all(char::is_whitespace)`) is a closure in all but syntax
+    fn fn_path(a: &syn::Expr) -> bool {
+        if let syn::Expr::Path(p) = a { p.path.segments.len() == 2 && p.path.segments[0].ident == "char" } else { false }
+    }
+    if m.args.iter().any(|a| matches!(a, syn::Expr::Closure(_)) || contains_closure(a) || fn_path(a)) {
         return true;
     }
     loop {
         match cur {
             syn::Expr::MethodCall(mc) => {
-                if mc.args.iter().any(|a| matches!(a, syn::Expr::Closure(_)) || contains_closure(a)) {
+                if mc.args.iter().any(|a| matches!(a, syn::Expr::Closure(_)) || contains_closure(a) || fn_path(a)) {
                     return true;
                 }
                 cur = &mc.receiver;
@@ -1490,6 +1503,14 @@ impl<'ast, 'p> Visit<'ast> for Ctx<'p> {
                     if let Some(re) = recv_end {
                         self.used_hoists.insert(hi);
                         let body = format!("recv{}", self.text(re, e));
+                        let mut h = h;
+                        if !h.pin.is_empty() && squash(&h.pin) != squash(self.text(re, e)) {
+                            if let Some(a) = h.alts.iter().find(|a| squash(&a.pin) == squash(self.text(re, e))).cloned() {
+                                self.log(s, "R7", &format!("the chain hoisted into {} has the alternative text `{}`: its own assumed spec is used", h.name, a.pin));
+                                h.pin = a.pin;
+                                h.spec = a.spec;
+                            }
+                        }
                         if !h.pin.is_empty() && squash(&h.pin) != squash(self.text(re, e)) {
                             self.out.errors.push(format!(
                                 "lost anchor: the closure chain hoisted into {} (in {}) is no longer the text its assumed spec was written for: `{}`",
